@@ -45,8 +45,14 @@
 //! oracles plus a twin that only ever saw the final state and a tiny
 //! reference model of the content.
 //!
+//! VALUE ROUTES of times (`build.time_value_routes`): a `Time` obtained by
+//! parsing, serde, conversion or arithmetic can carry a sub-second part or
+//! chrono's leap-second form, which `Time::utc` never makes; every
+//! time-carrying builder field is fed every such value (compared with the
+//! twin at whole seconds, validated at a whole second inside both windows).
+//!
 //! `C05_ONLY=<space>[,<space>]` (cert, crl, sigobj, manifest, roa, aspa, csr,
-//! idcert, sigmsg, cms, forms, setters, made, reissue, scale, chains,
+//! idcert, sigmsg, cms, forms, setters, made, timeroutes, reissue, scale, chains,
 //! history, usage, sequences (or seq.aspa, seq.roa, seq.manifest, seq.crl,
 //! seq.resources, seq.cert, seq.sigobj, seq.ca_side), objhist) restricts a run to some
 //! spaces while developing.
@@ -157,6 +163,23 @@ fn r_time(t: Time) -> String {
     format!("{}s+{}ns", t.timestamp(), ns)
 }
 fn r_validity(v: Validity) -> String { format!("{}..{}", r_time(v.not_before()), r_time(v.not_after())) }
+thread_local! {
+    /// `build.time_value_routes` only: (the whole second into which the
+    /// sub-second / leap-second input time of the running case falls,
+    /// verdicts not compared so far).
+    static TRUNCATED_SECOND: std::cell::Cell<(Option<i64>, u64)> = const { std::cell::Cell::new((None, 0)) };
+}
+/// A validity verdict asked at a fixed whole-second instant. When the case's
+/// input time has a sub-second part and the instant is that very second, the
+/// built value (bound = second + fraction) and its twin (bound = second, DER
+/// carries no fraction) are both right to answer differently: the verdict is
+/// not compared (counted). Everywhere else -- and in every other space --
+/// this is the plain verdict.
+fn r_verdict_at(now: Time, verdict: impl FnOnce() -> String) -> String {
+    let (sec, n) = TRUNCATED_SECOND.with(|w| w.get());
+    if sec == Some(now.timestamp()) { TRUNCATED_SECOND.with(|w| w.set((sec, n + 1))); return "asked inside the second the input's fraction was cut from (not compared)".into() }
+    verdict()
+}
 fn r_name(n: &Name) -> String { format!("{} rpki={:?} router={:?}", hex(&cap(n.encode_ref())),
     n.inspect_rpki(true).map_err(|e| e.to_string()), n.inspect_router(true).map_err(|e| e.to_string())) }
 fn r_key(k: &PublicKey) -> String {
@@ -486,6 +509,7 @@ fn run_cases<C: Sync>(ctx: &Ctx, sp: &Space, obj: &str, cases: &[C],
                       wit: impl Fn(&C) -> String + Sync, f: impl Fn(&C) -> CaseResult + Sync) {
     let results: Vec<CaseResult> = cases.par_iter().map(|c| {
         WHOLE_SECONDS.with(|w| w.set((false, 0)));
+        TRUNCATED_SECOND.with(|w| w.set((None, 0)));
         match guard(|| f(c)) {
             Ok(r) => r,
             Err(p) => { let mut r = CaseResult::default(); r.label = "harness-panic".into(); r.fail("build", format!("unguarded {p}")); r }
@@ -575,7 +599,7 @@ fn obs_cert(c: &Cert) -> Obs {
     o.put("inspect_detached_ee", || r_res(c.inspect_detached_ee(true)));
     o.put("inspect_router", || r_res(c.inspect_router(true)));
     for (i, t) in instants().iter().enumerate() {
-        o.put(&format!("verify_validity@{i}"), || r_res(c.verify_validity(*t)));
+        o.put(&format!("verify_validity@{i}"), || r_verdict_at(*t, || r_res(c.verify_validity(*t))));
     }
     o.put("verify_ta_ref_at(nb)", || r_res(c.verify_ta_ref_at(true, c.validity().not_before())));
     o.pair("verify_ta_ref", || r_res(c.verify_ta_ref(true)), || r_res(c.verify_ta_ref_at(true, Time::now())));
@@ -780,8 +804,8 @@ fn obs_idcert(c: &IdCert) -> Obs {
     o.put("validity", || r_validity(*c.validity()));
     o.put("tbs.encode_ref", || { let t: &rpki::ca::idcert::TbsIdCert = c; hx(&cap(t.encode_ref())) });
     for (i, t) in instants().iter().enumerate() {
-        o.put(&format!("verify_validity@{i}"), || r_res(c.verify_validity(*t)));
-        o.put(&format!("validate_ta_at@{i}"), || r_res(c.validate_ta_at(*t)));
+        o.put(&format!("verify_validity@{i}"), || r_verdict_at(*t, || r_res(c.verify_validity(*t))));
+        o.put(&format!("validate_ta_at@{i}"), || r_verdict_at(*t, || r_res(c.validate_ta_at(*t))));
     }
     o.pair("validate_ta", || r_res(c.validate_ta()), || r_res(c.validate_ta_at(Time::now())));
     o.put("to_bytes", || hx(&c.to_bytes()));
@@ -857,6 +881,8 @@ struct CertSpec {
     /// positions x classes layer: every URI field takes this text / both names take this name
     text_x: Option<usize>,
     name_x: Option<usize>,
+    /// time-route layer: this window instead of `win`, handed to `TbsCert::new`
+    validity_x: Option<Validity>,
 }
 
 impl CertSpec {
@@ -866,7 +892,7 @@ impl CertSpec {
             v4: if kind == CKind::Router { ResCh::Missing } else { ResCh::Blocks(vec![0, 2]) },
             v6: if kind == CKind::Router { ResCh::Missing } else if kind == CKind::Ta { ResCh::Blocks(vec![1]) } else { ResCh::Inherit },
             asn: ResCh::Blocks(vec![1, 2]), overclaim: Overclaim::Refuse,
-            subject_key: if kind == CKind::Ta { 0 } else { 2 }, ta_aki: false, text_x: None, name_x: None }
+            subject_key: if kind == CKind::Ta { 0 } else { 2 }, ta_aki: false, text_x: None, name_x: None, validity_x: None }
     }
     fn wit(&self, d: &Dom) -> String {
         format!("{:?} serial={} validity={} issuer={} subject={} uris={}/{}/{}/{} notify={} v4={} v6={} as={} policy={:?} key={}{}",
@@ -889,7 +915,7 @@ impl CertSpec {
         let signing_key = if self.kind == CKind::Ta { self.subject_key } else { 0 };
         let subject_pub = if self.kind == CKind::Router { ec_public(self.subject_key) } else { d.signer.public(self.subject_key) };
         let usage = match self.kind { CKind::Ta | CKind::Ca => KeyUsage::Ca, _ => KeyUsage::Ee };
-        let mut t = TbsCert::new(d.serials[self.serial].1, d.issuer_name(self.issuer_name, signing_key), d.validity(self.win),
+        let mut t = TbsCert::new(d.serials[self.serial].1, d.issuer_name(self.issuer_name, signing_key), self.validity_x.unwrap_or_else(|| d.validity(self.win)),
             d.name_opt(self.subject_name), subject_pub, usage, self.overclaim);
         match self.kind {
             CKind::Ta => {
@@ -2083,7 +2109,7 @@ fn tbs_set(t: &mut TbsCert, f: usize, src: &TbsCert) {
 /// A TbsCert that differs from `b` in every one of the 19 fields.
 fn tbs_alternative(d: &Dom, kind: CKind, b: &TbsCert) -> TbsCert {
     let spec = CertSpec { kind, serial: 5, win: (0, 4), issuer_name: 2, subject_name: 1, uris: [3, 3, 3, 3], notify: 1,
-        v4: ResCh::Blocks(vec![3]), v6: ResCh::Blocks(vec![0, 1]), asn: ResCh::Blocks(vec![0]), overclaim: Overclaim::Trim, subject_key: 4, ta_aki: false, text_x: None, name_x: None };
+        v4: ResCh::Blocks(vec![3]), v6: ResCh::Blocks(vec![0, 1]), asn: ResCh::Blocks(vec![0]), overclaim: Overclaim::Trim, subject_key: 4, ta_aki: false, text_x: None, name_x: None, validity_x: None };
     let mut a = spec.build(d);
     a.set_key_usage(if b.key_usage() == KeyUsage::Ca { KeyUsage::Ee } else { KeyUsage::Ca });
     a.set_basic_ca(if b.basic_ca() == Some(true) { None } else { Some(true) });
@@ -2433,6 +2459,296 @@ fn space_made_inputs(ctx: &Ctx, d: &Dom) {
             r
         });
     sp.done(true, &format!("{} (object, input) pairs", cases.len()));
+}
+
+
+//============ Time values by the route that obtained them ====================
+//
+// A `Time` is a chrono value: besides the whole seconds that DER can carry it
+// may hold a sub-second part, and chrono's representation of a leap second
+// (second 59 with a nanosecond part of 1_000_000_000 or more). Such values are
+// not made by `Time::utc` but by every other way of obtaining a `Time`:
+// parsing RFC 3339 text ("23:59:60Z"), serde, `From<DateTime>`,
+// `From<SystemTime>`, arithmetic. Every time-carrying builder field is fed
+// every such value; the object must decode, re-encode to the same octets,
+// agree with its twin at whole seconds (DER drops the fraction; a leap
+// second denotes the :59 second it is folded onto, as chrono's `timestamp()`
+// says) and validate at a whole-second instant that lies inside the window
+// of the built value and of the twin alike.
+
+struct TimeVal { t: Time, route: String, routes: usize, arithmetic_only: bool }
+
+fn whole_second(ts: i64) -> Option<Time> { chrono::DateTime::<chrono::Utc>::from_timestamp(ts, 0).map(Time::new) }
+
+fn time_class(t: Time) -> &'static str {
+    match t.timestamp_subsec_nanos() { 0 => "whole second", n if n >= 1_000_000_000 => "leap second folded onto :59", _ => "sub-second part dropped by DER" }
+}
+
+fn r_time_val(t: Time) -> String { format!("{} ({}s+{}ns)", t.to_rfc3339_opts(chrono::SecondsFormat::AutoSi, true), t.timestamp(), t.timestamp_subsec_nanos()) }
+
+/// anchors x sub-second forms x routes, reduced to distinct values (a `Time`
+/// is nothing but its chrono value: `Eq`, `Copy`, no hidden state), each with
+/// the first route that produced it. Returns (values, times obtained,
+/// spellings refused / results outside years 1..=9999).
+fn time_route_values() -> (Vec<TimeVal>, u64, u64) {
+    use chrono::{DateTime, Datelike, FixedOffset, NaiveDate, SecondsFormat, TimeDelta, Utc};
+    use std::time::{Duration, UNIX_EPOCH};
+    let anchors: [(i32, u32, u32, u32, u32, u32); 14] = [(1, 1, 1, 0, 0, 0), (1949, 12, 31, 23, 59, 59), (1950, 1, 1, 0, 0, 0), (1969, 12, 31, 23, 59, 59), (1970, 1, 1, 0, 0, 0),
+        (1972, 6, 30, 23, 59, 59), (2000, 2, 29, 23, 59, 59), (2016, 12, 31, 23, 59, 59), (2017, 1, 1, 0, 0, 0), (2024, 2, 29, 12, 34, 59), (2049, 12, 31, 23, 59, 59), (2050, 1, 1, 0, 0, 0),
+        (2051, 6, 30, 23, 59, 59), (9999, 12, 31, 23, 59, 59)];
+    let nanos = [0u32, 1, 500_000_000, 999_999_999, 1_000_000_000, 1_500_000_000, 1_999_999_999];
+    let mut map: BTreeMap<(i64, u32), TimeVal> = BTreeMap::new();
+    let (mut obtained, mut refused) = (0u64, 0u64);
+    for &(y, mo, dd, h, mi, s) in &anchors { for &ns in &nanos {
+        let leap = ns >= 1_000_000_000;
+        if leap && s != 59 { continue }
+        let ts = NaiveDate::from_ymd_opt(y, mo, dd).and_then(|x| x.and_hms_opt(h, mi, s)).expect("anchor").and_utc().timestamp();
+        let Some(dt) = DateTime::<Utc>::from_timestamp(ts, ns) else { continue };
+        let mut got: Vec<(String, Option<Time>, bool)> = vec![];
+        got.push(("Time::new(DateTime::from_timestamp)".into(), Some(Time::new(dt)), false));
+        got.push(("Time::from(DateTime<Utc>)".into(), Some(Time::from(dt)), false));
+        if ns == 0 { got.push((format!("Time::utc({y}, {mo}, {dd}, {h}, {mi}, {s})"), guard(|| Time::utc(y, mo, dd, h, mi, s)).ok(), false)) }
+        // RFC 3339 spellings: hand-written with Z (second 60 for the leap form), chrono's own with two offsets
+        let frac = match ns % 1_000_000_000 { 0 => String::new(), 500_000_000 => ".5".into(), n => format!(".{n:09}") };
+        let mut texts = vec![format!("{y:04}-{mo:02}-{dd:02}T{h:02}:{mi:02}:{:02}{frac}Z", if leap { 60 } else { s })];
+        for off in [3600, -19800] { texts.push(dt.with_timezone(&FixedOffset::east_opt(off).unwrap()).to_rfc3339_opts(SecondsFormat::AutoSi, false)) }
+        for text in &texts {
+            got.push((format!("Time::from_str({text:?})"), guard(|| Time::from_str(text).ok()).ok().flatten(), false));
+            got.push((format!("serde_json::from_str::<Time>({text:?})"), guard(|| serde_json::from_str::<Time>(&format!("\"{text}\"")).ok()).ok().flatten(), false));
+        }
+        let t0 = Time::new(dt);
+        got.push(("serde_json to_string -> from_str".into(), guard(|| serde_json::to_string(&t0).ok().and_then(|j| serde_json::from_str::<Time>(&j).ok())).ok().flatten(), false));
+        got.push(("Validity through serde_json, not_after()".into(), guard(|| serde_json::to_string(&Validity::new(t0, t0)).ok().and_then(|j| serde_json::from_str::<Validity>(&j).ok()).map(|v| v.not_after())).ok().flatten(), false));
+        got.push(("Validity::new(t, t).not_before()".into(), Some(Validity::new(t0, t0).not_before()), false));
+        if !leap {
+            let st = if ts >= 0 { UNIX_EPOCH.checked_add(Duration::new(ts as u64, ns)) } else { UNIX_EPOCH.checked_sub(Duration::new((-ts) as u64, 0)).and_then(|x| x.checked_add(Duration::new(0, ns))) };
+            if let Some(st) = st { got.push(("Time::from(SystemTime)".into(), guard(|| Time::from(st)).ok(), false)) }
+        }
+        got.push((format!("Time::years_from_date(0, {})", dt.to_rfc3339_opts(SecondsFormat::AutoSi, true)), guard(|| Time::years_from_date(0, dt)).ok(), false));
+        for (name, dl) in [("1 ns", TimeDelta::nanoseconds(1)), ("0.5 s", TimeDelta::milliseconds(500)), ("1 s", TimeDelta::seconds(1)), ("1 day", TimeDelta::days(1))] {
+            let at = dt.to_rfc3339_opts(SecondsFormat::AutoSi, true);
+            got.push((format!("{at} + {name}"), guard(|| t0 + dl).ok(), true));
+            got.push((format!("{at} - {name}"), guard(|| t0 - dl).ok(), true));
+            got.push((format!("({at} - {name}) + {name}"), guard(|| (t0 - dl) + dl).ok(), true));
+        }
+        for (route, t, arith) in got {
+            obtained += 1;
+            let Some(t) = t else { refused += 1; continue };
+            if !(1..=9999).contains(&t.year()) { refused += 1; continue }
+            let e = map.entry((t.timestamp(), t.timestamp_subsec_nanos())).or_insert(TimeVal { t, route: route.clone(), routes: 0, arithmetic_only: true });
+            e.routes += 1;
+            if !arith { if e.arithmetic_only { e.route = route } e.arithmetic_only = false }
+        }
+    }}
+    (map.into_values().collect(), obtained, refused)
+}
+
+#[derive(Clone, Copy, Debug, PartialEq, Eq)]
+enum TObj { Cert(CKind), Crl, Manifest, SigObj, Roa, Aspa, IdTa, IdEe, SigMsg, ProvCms }
+
+/// Where the value goes relative to the window it belongs to.
+#[derive(Clone, Copy, Debug, PartialEq, Eq)]
+enum Place { Lower, Upper, Both, Free }
+
+struct Placed { lo: Time, hi: Time, when: Time, judge_built: bool }
+
+/// The other bound and the whole-second instant of validation: for a lower
+/// bound T the first whole second that is not before T (a leap second: the
+/// :00 after it), for an upper bound the whole second T falls into. None:
+/// no such instant exists within years 1..=9999 (not a case).
+fn place(t: Time, p: Place) -> Option<Placed> {
+    let (l0, h0) = (Time::utc(2020, 1, 1, 0, 0, 0), Time::utc(2030, 1, 1, 0, 0, 0));
+    let (min, max) = (Time::utc(1, 1, 1, 0, 0, 0), Time::utc(9999, 12, 31, 23, 59, 59));
+    let floor = whole_second(t.timestamp())?;
+    let ceil = if t.timestamp_subsec_nanos() == 0 { t } else { whole_second(t.timestamp() + 1)? };
+    match p {
+        Place::Lower => { let hi = if ceil <= h0 { h0 } else if ceil <= max { max } else { return None }; Some(Placed { lo: t, hi, when: ceil, judge_built: true }) }
+        Place::Upper => Some(Placed { lo: if l0 <= floor { l0 } else { min }, hi: t, when: floor, judge_built: true }),
+        Place::Both => Some(Placed { lo: t, hi: t, when: floor, judge_built: t.timestamp_subsec_nanos() == 0 }),
+        Place::Free => Some(Placed { lo: l0, hi: h0, when: Time::utc(2025, 1, 1, 0, 0, 0), judge_built: true }),
+    }
+}
+
+/// (field name, placement) per object; the index is the field code.
+fn time_fields(o: TObj) -> Vec<(&'static str, Place)> {
+    use Place::*;
+    match o {
+        TObj::Cert(_) => vec![("TbsCert::new(validity).not_before", Lower), ("TbsCert::new(validity).not_after", Upper), ("set_validity.not_before", Lower), ("set_validity.not_after", Upper), ("TbsCert::new(validity) both bounds", Both)],
+        TObj::Crl => vec![("TbsCertList::new this_update", Lower), ("TbsCertList::new next_update", Upper), ("set_this_update", Lower), ("set_next_update", Upper), ("revocation date of the only entry", Free),
+            ("revocation date of the first of 3 entries", Free), ("revocation date of the last of 3 entries", Free), ("this_update = next_update = the revocation date", Both)],
+        TObj::Manifest | TObj::SigObj | TObj::Roa | TObj::Aspa => {
+            let mut v = vec![("SignedObjectBuilder::new(validity).not_before", Lower), ("SignedObjectBuilder::new(validity).not_after", Upper), ("SignedObjectBuilder::set_validity.not_before", Lower),
+                ("SignedObjectBuilder::set_validity.not_after", Upper), ("set_signing_time", Free), ("EE not_before = not_after = signing time", Both)];
+            if o == TObj::Manifest { v.extend([("ManifestContent::new this_update", Lower), ("ManifestContent::new next_update", Upper), ("ManifestContent::new this_update = next_update", Both)]) }
+            v
+        }
+        TObj::IdTa | TObj::IdEe | TObj::SigMsg => vec![("validity.not_before", Lower), ("validity.not_after", Upper), ("validity both bounds", Both)],
+        TObj::ProvCms => vec![("list response: ResourceClassEntitlements::new not_after", Free)],
+    }
+}
+
+fn tobj_name(o: TObj) -> &'static str {
+    match o { TObj::Cert(CKind::Ta) => "cert.ta", TObj::Cert(CKind::Ca) => "cert.ca", TObj::Cert(CKind::Ee) => "cert.ee", TObj::Cert(CKind::Router) => "cert.router", TObj::Crl => "crl",
+        TObj::Manifest => "manifest", TObj::SigObj => "sigobj", TObj::Roa => "roa", TObj::Aspa => "aspa", TObj::IdTa => "idcert.ta", TObj::IdEe => "idcert.ee", TObj::SigMsg => "sigmsg", TObj::ProvCms => "provisioning.cms" }
+}
+
+#[derive(Clone, Debug)]
+struct TimeCase { obj: TObj, field: usize, val: usize }
+
+fn space_time_routes(ctx: &Ctx, d: &Dom) {
+    let sp = ctx.space("build.time_value_routes",
+        "every time-carrying builder field x every Time value by the route that obtained it. Values: 14 anchor seconds (first / last encodable year, both UTCTime pivots on both sides, the epoch on both sides, real leap-second dates, a leap day, a mid-day :59) x sub-second parts {0, 1 ns, .5, .999999999} and chrono's leap-second form (second 59 + 1.0 / 1.5 / 1.999999999 s) x routes {Time::new / Time::from(chrono value), Time::utc, Time::from_str and serde_json over RFC 3339 spellings (Z with the second written 60, +01:00, -05:30), serde round trips of Time and Validity, From<SystemTime>, Validity::new accessors, years_from_date(0, ..), t +- d and (t - d) + d for d in {1 ns, 0.5 s, 1 s, 1 day}}, reduced to distinct values within years 1..=9999 (a Time is nothing but its chrono value); quick feeds the values that only arithmetic produces to one field per encoding site and placement (CA certificate, CRL, manifest content, signing time, identity TA certificate, signed message), thorough to every field. Fields: certificate validity (TA / CA / EE / router: each bound through TbsCert::new and through set_validity, both bounds), CRL this_update / next_update (constructor and setters), revocation date (only / first / last entry), all three at once; manifest, bare signed object, ROA, ASPA: EE validity bounds (SignedObjectBuilder::new and set_validity), signing time, all at once, manifest this_update / next_update / both; IdCert::new_ta / new_ee and SignedMessage::create validity bounds (the message's EE certificate and CRL); the not_after of a resource class in a provisioning list response (RFC 3339 text inside the signed XML: compared exactly). The other bound of a window is a fixed instant on the right side of the value. Oracles: decode, re-encode, built-vs-twin accessor agreement with times compared at whole seconds (a leap second denotes the :59 it is folded onto; a verdict asked at a fixed instant inside the very second whose fraction DER dropped is counted, not compared), validation of twin and built value at a whole-second instant inside both windows (lower bound: first whole second not before it; upper bound: the second it falls into). non-trivial = distinct DER; outcome = kind of value");
+    let thorough = ctx.tier.is_thorough();
+    let (all_vals, obtained, refused) = time_route_values();
+    let vals: Vec<&TimeVal> = all_vals.iter().collect();
+    let objs = [TObj::Cert(CKind::Ta), TObj::Cert(CKind::Ca), TObj::Cert(CKind::Ee), TObj::Cert(CKind::Router), TObj::Crl, TObj::Manifest, TObj::SigObj, TObj::Roa, TObj::Aspa, TObj::IdTa, TObj::IdEe, TObj::SigMsg, TObj::ProvCms];
+    let mut cases = vec![];
+    let mut outside = 0u64;
+    let mut slots = 0usize;
+    for &obj in &objs { for (field, (_, pl)) in time_fields(obj).into_iter().enumerate() {
+        // quick: the values only arithmetic produces go into one slot per encoding site and placement
+        let core = match obj { TObj::Cert(CKind::Ca) | TObj::IdTa | TObj::SigMsg => field <= 1, TObj::Crl => matches!(field, 0 | 1 | 4), TObj::Manifest => matches!(field, 6 | 7), TObj::SigObj => field == 4, TObj::ProvCms => true, _ => false };
+        slots += 1;
+        for val in 0..vals.len() {
+            if vals[val].arithmetic_only && !thorough && !core { continue }
+            if place(vals[val].t, pl).is_some() { cases.push(TimeCase { obj, field, val }) } else { outside += 1 }
+        }
+    }}
+    let probes: Vec<Serial> = d.serials.iter().map(|s| s.1).collect();
+    let base_uri = d.dirs[1].clone();
+    run_cases(ctx, &sp, "time_routes", &cases,
+        |c| { let v = vals[c.val]; let (name, pl) = time_fields(c.obj)[c.field]; let p = place(v.t, pl).expect("placed");
+            format!("{} field=[{}] time={} [{}] obtained by {}{}; window {} .. {}; validated at {}", tobj_name(c.obj), name, r_time_val(v.t), time_class(v.t), v.route,
+                if v.routes > 1 { format!(" (and {} more routes)", v.routes - 1) } else { String::new() }, r_time_val(p.lo), r_time_val(p.hi), r_time_val(p.when)) },
+        |c| {
+            let mut r = CaseResult::default();
+            let t = vals[c.val].t;
+            let (_, pl) = time_fields(c.obj)[c.field];
+            let p = place(t, pl).expect("placed");
+            r.label = time_class(t).to_string();
+            WHOLE_SECONDS.with(|w| w.set((true, 0)));
+            TRUNCATED_SECOND.with(|w| w.set((if t.timestamp_subsec_nanos() != 0 { Some(t.timestamp()) } else { None }, 0)));
+            let window = Validity::new(p.lo, p.hi);
+            let fixed = Validity::new(Time::utc(2020, 1, 1, 0, 0, 0), Time::utc(2030, 1, 1, 0, 0, 0));
+            let mid = Time::utc(2025, 1, 1, 0, 0, 0);
+            let res = guard(|| -> Result<(), String> {
+                // the EE side of the four signed-object kinds
+                let so_builder = |field: usize| -> (SignedObjectBuilder, Time) {
+                    let via_set = field == 2 || field == 3;
+                    let ee = if field <= 3 || field == 5 { window } else { fixed };
+                    let mut b = SignedObjectBuilder::new(d.serials[3].1, if via_set { fixed } else { ee }, d.crls[1].clone(), d.cers[1].clone(), d.objs[1].clone());
+                    if via_set { b.set_validity(ee) }
+                    b.set_issuer(d.name_opt(1)); b.set_subject(d.name_opt(2));
+                    b.set_signing_time(if field == 4 || field == 5 { t } else { mid });
+                    (b, if field <= 3 || field == 5 { p.when } else { mid })
+                };
+                let signer = CaseSigner::with_rand(&d.signer, 7, d.serials[3].1);
+                let signed_verdict = |r: &mut CaseResult, bytes: &[u8], when: Time| {
+                    match guard(|| SignedObject::decode(bytes, true).map_err(|e| e.to_string()).and_then(|s| s.validate_at(&d.ta, true, when).map(|_| ()).map_err(|e| e.to_string()))) {
+                        Ok(Ok(())) => {}, Ok(Err(e)) => r.fail("validate", format!("decoded twin at {}: {e}", r_time_val(when))), Err(q) => r.fail("validate", q) }
+                };
+                match c.obj {
+                    TObj::Cert(kind) => {
+                        let via_set = c.field == 2 || c.field == 3;
+                        let spec = CertSpec { validity_x: if via_set { None } else { Some(window) }, ..CertSpec::base(kind) };
+                        let mut tbs = spec.build(d);
+                        if via_set { tbs.set_validity(window) }
+                        let built = tbs.into_cert(&d.signer, &Kid(0)).map_err(|e| e.to_string())?;
+                        let Some((_, decoded)) = twin(&mut r, &built, |c| c.to_captured().as_slice().to_vec(), |b| Cert::decode(b).map_err(|e| e.to_string()), obs_cert) else { return Ok(()) };
+                        if let Err(e) = validate_cert(d, kind, &decoded, p.when) { r.fail("validate", format!("decoded twin at {}: {e}", r_time_val(p.when))) }
+                        else if p.judge_built { if let Err(e) = validate_cert(d, kind, &built, p.when) { r.fail("accessors", format!("built value rejected at {} where its twin validates: {e}", r_time_val(p.when))) } }
+                    }
+                    TObj::Crl => {
+                        let other = |i: u64| CrlEntry::new(Serial::from(i), mid);
+                        let entries = match c.field { 4 | 7 => vec![CrlEntry::new(d.serials[3].1, t)], 5 => vec![CrlEntry::new(d.serials[3].1, t), other(200), other(300)],
+                            6 => vec![other(100), other(110), CrlEntry::new(d.serials[3].1, t)], _ => vec![other(100), other(200)] };
+                        let w = if matches!(c.field, 4..=6) { fixed } else { window };
+                        let via_set = c.field == 2 || c.field == 3;
+                        let mut tbs = TbsCertList::new(RpkiSignatureAlgorithm::default(), d.issuer_name(1, 0), if via_set { fixed.not_before() } else { w.not_before() }, if via_set { fixed.not_after() } else { w.not_after() },
+                            entries, d.signer.public(0).key_identifier(), d.serials[3].1);
+                        if via_set { tbs.set_this_update(w.not_before()); tbs.set_next_update(w.not_after()) }
+                        let built = tbs.into_crl(&d.signer, &Kid(0)).map_err(|e| e.to_string())?;
+                        let Some((_, decoded)) = twin(&mut r, &built, |m| m.to_captured().as_slice().to_vec(), |b| Crl::decode(b).map_err(|e| e.to_string()), |x| obs_crl(x, &probes)) else { return Ok(()) };
+                        if let Err(e) = decoded.verify_signature(&d.signer.public(0)) { r.fail("validate", e.to_string()) }
+                    }
+                    TObj::Manifest => {
+                        let (b, when) = so_builder(c.field);
+                        let mw = if c.field >= 6 { window } else { fixed };
+                        let built = ManifestContent::new(d.serials[3].1, mw.not_before(), mw.not_after(), DigestAlgorithm::sha256(), vec![FileAndHash::new(b"a.roa".to_vec(), sha256(b"a"))])
+                            .into_manifest(b, &signer, &Kid(0)).map_err(|e| e.to_string())?;
+                        let Some((bytes, decoded)) = twin(&mut r, &built, |m| m.to_captured().as_slice().to_vec(), |x| Manifest::decode(x, true).map_err(|e| e.to_string()), |m| obs_manifest(m, &base_uri)) else { return Ok(()) };
+                        signed_verdict(&mut r, &bytes, when);
+                        if let Err(e) = decoded.validate_at(&d.ta, true, when) { r.fail("validate", format!("Manifest::validate_at({}): {e}", r_time_val(when))) }
+                        else if p.judge_built { if let Err(e) = built.validate_at(&d.ta, true, when) { r.fail("accessors", format!("built manifest rejected at {} where its twin validates: {e}", r_time_val(when))) } }
+                    }
+                    TObj::SigObj => {
+                        let (mut b, when) = so_builder(c.field);
+                        b.set_as_resources_inherit();
+                        let ct = Oid(Bytes::copy_from_slice(&der::oid(&[1, 2, 840, 113549, 1, 9, 16, 1, 35])[2..]));
+                        let built = b.finalize(ct, Bytes::from(der::seq(&[der::int_u(7)])), &signer, &Kid(0)).map_err(|e| e.to_string())?;
+                        let Some((bytes, _)) = twin(&mut r, &built, |s| cap(s.encode_ref()), |x| SignedObject::decode(x, true).map_err(|e| e.to_string()), obs_sigobj) else { return Ok(()) };
+                        signed_verdict(&mut r, &bytes, when);
+                        if r.fails.is_empty() && p.judge_built { if let Err(e) = built.validate_at(&d.ta, true, when) { r.fail("accessors", format!("built object rejected at {} where its twin validates: {e}", r_time_val(when))) } }
+                    }
+                    TObj::Roa => {
+                        let (b, when) = so_builder(c.field);
+                        let mut rb = RoaBuilder::new(Asn::from_u32(65536));
+                        rb.push_v4(roa_alphabet(true)[1]); rb.push_v6(roa_alphabet(false)[1]);
+                        let built = rb.finalize(b, &signer, &Kid(0)).map_err(|e| e.to_string())?;
+                        let Some((bytes, _)) = twin(&mut r, &built, |m| m.to_captured().as_slice().to_vec(), |x| Roa::decode(x, true).map_err(|e| e.to_string()), obs_roa) else { return Ok(()) };
+                        signed_verdict(&mut r, &bytes, when);
+                    }
+                    TObj::Aspa => {
+                        let (b, when) = so_builder(c.field);
+                        let ab = AspaBuilder::new(Asn::from_u32(65536), vec![Asn::from_u32(1), Asn::from_u32(65535)]).map_err(|e| e.to_string())?;
+                        let built = ab.finalize(b, &signer, &Kid(0)).map_err(|e| e.to_string())?;
+                        let Some((bytes, _)) = twin(&mut r, &built, |m| m.to_captured().as_slice().to_vec(), |x| Aspa::decode(x, true).map_err(|e| e.to_string()), obs_aspa) else { return Ok(()) };
+                        signed_verdict(&mut r, &bytes, when);
+                    }
+                    TObj::IdTa | TObj::IdEe => {
+                        let ta = c.obj == TObj::IdTa;
+                        let key = d.signer.public(0);
+                        let built = if ta { IdCert::new_ta(window, &Kid(0), &signer) } else { IdCert::new_ee(&d.signer.public(3), window, &Kid(0), &signer) }.map_err(|e| e.to_string())?;
+                        let Some((_, decoded)) = twin(&mut r, &built, |m| m.to_captured().as_slice().to_vec(), |b| IdCert::decode(b).map_err(|e| e.to_string()), obs_idcert) else { return Ok(()) };
+                        let verdict = |x: &IdCert| if ta { x.validate_ta_at(p.when) } else { x.validate_ee_at(&key, p.when) };
+                        if let Err(e) = verdict(&decoded) { r.fail("validate", format!("decoded twin at {}: {e}", r_time_val(p.when))) }
+                        else if p.judge_built { if let Err(e) = verdict(&built) { r.fail("accessors", format!("built value rejected at {} where its twin validates: {e}", r_time_val(p.when))) } }
+                    }
+                    TObj::SigMsg => {
+                        let key = d.signer.public(0);
+                        let built = SignedMessage::create(Bytes::from_static(b"<msg/>"), window, &Kid(0), &signer).map_err(|e| e.to_string())?;
+                        let Some((_, decoded)) = twin(&mut r, &built, |m| m.to_captured().as_slice().to_vec(), |x| SignedMessage::decode(x, true).map_err(|e| e.to_string()), obs_sigmsg) else { return Ok(()) };
+                        if let Err(e) = decoded.validate_at(&key, p.when) { r.fail("validate", format!("decoded twin at {}: {e}", r_time_val(p.when))) }
+                        else if p.judge_built { if let Err(e) = built.validate_at(&key, p.when) { r.fail("accessors", format!("built message rejected at {} where its twin validates: {e}", r_time_val(p.when))) } }
+                    }
+                    TObj::ProvCms => {
+                        // the time travels as RFC 3339 text inside the signed XML: nothing is dropped, the twin's message must be equal
+                        let ent = provisioning::ResourceClassEntitlements::new(provisioning::ResourceClassName::from("rc-0"),
+                            rpki::repository::resources::ResourceSet::from_strs("AS64496-AS64511", "10.0.0.0/8", "2001:db8::/32").map_err(|e| e.to_string())?, t, vec![],
+                            provisioning::SigningCert::new(d.cers[1].clone(), d.ta.as_cert().clone()));
+                        let msg = provisioning::Message::list_response(SenderHandle::from_str("child-1").unwrap(), RecipientHandle::from_str("Parent_A/b").unwrap(), provisioning::ResourceClassListResponse::new(vec![ent]));
+                        let built = ProvisioningCms::create(msg, &Kid(0), &signer).map_err(|e| e.to_string())?;
+                        let bytes = match guard(|| built.to_bytes()) { Ok(b) => b, Err(q) => { r.fail("encode", q); return Ok(()) } };
+                        r.der_hash = fnv(format!("{}+{}", t.timestamp(), t.timestamp_subsec_nanos()).as_bytes());   // signing time and CRL number come from the clock
+                        let decoded = match guard(|| ProvisioningCms::decode(&bytes)) { Ok(Ok(x)) => x, Ok(Err(e)) => { r.fail("decode", e.to_string()); return Ok(()) } Err(q) => { r.fail("decode", q); return Ok(()) } };
+                        if let Err(e) = decoded.validate_at(&d.signer.public(0), Time::now()) { r.fail("validate", e.to_string()) }
+                        let ob = |x: &ProvisioningCms| { let mut o = Obs::new(); o.put("message", || format!("{:?}", x.message())); o.put("message.to_xml", || x.message().to_xml_string()); o };
+                        if let Some(x) = diff(&ob(&built), &ob(&decoded)) { r.fail("accessors", x) }
+                        if built.message() != decoded.message() { r.fail("accessors", "Message == says the built message and its twin differ") }
+                    }
+                }
+                Ok(())
+            });
+            match res { Ok(Ok(())) => {}, Ok(Err(e)) => r.fail("build", e), Err(q) => r.fail("build", q) }
+            r.counted = WHOLE_SECONDS.with(|w| w.replace((false, 0))).1 + TRUNCATED_SECOND.with(|w| w.replace((None, 0))).1;
+            r
+        });
+    sp.set("time_values", serde_json::json!({ "distinct_used": vals.len(), "distinct_all_routes": all_vals.len(), "obtained_through_routes": obtained, "refused_or_outside_years_1_9999": refused,
+        "leap_second_form": vals.iter().filter(|v| v.t.timestamp_subsec_nanos() >= 1_000_000_000).count(), "sub_second": vals.iter().filter(|v| (1..1_000_000_000).contains(&v.t.timestamp_subsec_nanos())).count() }));
+    sp.set("field_slots", serde_json::json!(slots));
+    sp.set("placements_without_a_whole_second_inside_years_1_9999", serde_json::json!(outside));
+    sp.done(true, &format!("{} field slots x {} distinct values ({} times obtained through the routes; {} of the values from arithmetic only{}) = {} cases", slots, vals.len(), obtained,
+        vals.iter().filter(|v| v.arithmetic_only).count(), if thorough { "" } else { ", those in 14 slots" }, cases.len()));
 }
 
 
@@ -4540,6 +4856,7 @@ fn main() {
     if want("forms") { space_forms(&ctx, &d) }
     if want("setters") { space_setters(&ctx, &d) }
     if want("made") { space_made_inputs(&ctx, &d) }
+    if want("timeroutes") { space_time_routes(&ctx, &d) }
     if want("reissue") { space_reissue(&ctx, &d) }
     if want("scale") { space_scale(&ctx, &d) }
     if want("chains") { space_chains(&ctx, &d) }
